@@ -371,6 +371,27 @@ Variable tweak_check : okey -> parity -> key -> hash -> bool.
 Definition cb_verify (q : okey) (l : leaf) (cb : cblock) : bool :=
   tweak_check q (fst (fst cb)) (snd (fst cb)) (fold_path l (snd cb)).
 
+(* TrSpendInfo::to_tap_tree: None without a tree; otherwise every item the leaves iterator yields
+   is fed as (depth, script, version) to rust-bitcoin's TaprootBuilder, whose add_leaf is the
+   shift/reduce of tree_of_depths; `.expect("... DFS order")` / `.expect("tree is complete")` *)
+Definition to_tap_tree (ns : list node) : tres (option (tree leaf)) :=
+  match ns with
+  | [] => TOk None
+  | _ => its <-- leaves_iter ns ;;
+         match tree_of_depths leaf (map (fun it : item => (snd (fst it), fst (fst it))) its) with
+         | Some t => TOk (Some t)
+         | None => TPanic 40
+         end
+  end.
+
+(* Tr::script_pubkey = OP_1 <output key>; Tr::address = p2tr_tweaked(output key, network): both are
+   functions of the cached spend info's output key only *)
+Variables network address spk : Type.
+Variable addr_of : network -> okey -> address.
+Variable spk_of : okey -> spk.
+Definition tr_script_pubkey (si : spend_info) : spk := spk_of (si_okey si).
+Definition tr_address (n : network) (si : spend_info) : address := addr_of n (si_okey si).
+
 End Merkle.
 Arguments mkNode {leaf hash} n_sib n_leaf.
 Arguments n_sib {leaf hash} n. Arguments n_leaf {leaf hash} n.
